@@ -99,9 +99,21 @@ def gen_case(rng):
         new.insert(rng.randint(0, len(new)), rng.choice([0.1, 20200000.5, 1.0 / 3]))
     if method is not None:
         new = sorted(set([v + rng.choice([0, 0.5, -0.5, 3, -3, 0.25, 40]) for v in new] or [1.0]))
-    return {"mode": mode, "a": sp, "k": k, "new": new, "form": rng.choice(['list', 'arr', 'Axis']),
-            "fill": rng.choice([float('nan'), float('nan'), -99, 0.5, 0, 0.0, False]), "raise_error": rng.random() < 0.25,
-            "method": method, "axis_by_pos": rng.random() < 0.5, "axis_negative": rng.random() < 0.4}
+    c_ = {"mode": mode, "a": sp, "k": k, "new": new, "form": rng.choice(['list', 'arr', 'Axis']),
+          "fill": rng.choice([float('nan'), float('nan'), -99, 0.5, 0, 0.0, False]), "raise_error": rng.random() < 0.25,
+          "method": method, "axis_by_pos": rng.random() < 0.5, "axis_negative": rng.random() < 0.4}
+    vv_ = np.asarray(sp["values"])
+    if method is None and rng.random() < 0.15 and vv_.dtype.kind in 'if' and not np.isnan(np.asarray(vv_, dtype=float)).any():
+        # narrow data and a fill value of the same kind that the narrow type cannot hold: "the fill value otherwise", not a wrapped /
+        # rounded image of it
+        if vv_.dtype.kind == 'i':
+            sp["values"] = (vv_ % 100).astype(rng.choice(['int8', 'int16', 'uint8', 'int32']))
+            c_["fill"] = rng.choice([np.int64(-99999), np.int64(3000000000), -99999])
+        else:
+            sp["values"] = (vv_ % 1000).astype('float32')
+            c_["fill"] = rng.choice([0.1, np.float64(1e300), 1.0 / 3])
+        c_["raise_error"] = False
+    return c_
 
 
 def check(case, ctx):
